@@ -34,6 +34,8 @@ type LineInfo struct {
 	// Continued - the line begins inside a text or comment that started on an earlier line
 	// (it has no indentation of its own)
 	Continued bool
+	// BaseLine - for a Continued line: the index of the line that text or comment began on
+	BaseLine int
 }
 
 // Token - general token type
@@ -347,6 +349,19 @@ func (l *Lexer) EndLine(endCursor int) {
 		startIdx = endCursor
 	}
 	lastLine.LineText = l.Source[startIdx:endCursor]
+}
+
+// ContinuedLine - the entry of a line that begins inside a text or comment spanning lines
+// (to be appended to Lines by whoever scans that text or comment)
+func (l *Lexer) ContinuedLine(startIdx int) LineInfo {
+	base := len(l.Lines) - 1
+	if base >= 0 && l.Lines[base].Continued {
+		base = l.Lines[base].BaseLine
+	}
+	if base < 0 {
+		base = 0
+	}
+	return LineInfo{Indents: 0, StartIdx: startIdx, Continued: true, BaseLine: base}
 }
 
 // restOfLineIsBlank - from the cursor to the end of the line (or of the source) there is
